@@ -261,10 +261,6 @@ impl World {
         self.guard.deliver(p);
     }
 
-    pub fn held_count(&self) -> usize {
-        self.held.len()
-    }
-
     /// One round: settle -> egress_all -> fates -> deliver due (older held
     /// packets first, in (due, emission) order, then this round's packets in
     /// emission order).
